@@ -1108,7 +1108,7 @@ fn floating_bus_body(bank_class: u8) {
         kani::cover!(bank_class == 2 || (got == v && !w_attr && wsel == 1), "bitmap byte seen on the floating bus");
         kani::cover!(same_gap && t > 20000, "idle bus inside the picture area (right border / retrace)");
     }
-    }
+    
     kani::cover!(got == 0xFF && t > 20000, "0xFF read");
 }
 
